@@ -15,7 +15,7 @@ ENTRY = T.obj(f"{LT_}:LocationTableEntry", mib=MIB, version=T.int(), position_ve
               dpl_set=T.symset(), dpl_deque=T.symdeque())
 DUP = "flexstack.geonet.exceptions:DuplicatedPacketException"
 
-contract(f"{LT_}:LocationTableEntry.check_duplicate_sn", props=["C06"], shapes={"self": ENTRY, "sn": T.int(0, 65535)},
+contract(f"{LT_}:LocationTableEntry.check_duplicate_sn", props=["C06", "C01"], shapes={"self": ENTRY, "sn": T.int(0, 65535)},
          requires=["dpl_wf(self)"], modifies=["self.dpl_set", "self.dpl_deque"],
          raises={DUP: "set_has(self.dpl_set, sn)"},
          ensures={"ring_invariant_kept": "dpl_wf(self)",
@@ -101,12 +101,14 @@ contract(f"{LT_}:LocationTable.new_shb_packet", props=["C08"],
 
 
 def _multi_hop(name, hdr_param, hdr_shape):
-    contract(f"{LT_}:LocationTable.{name}", props=["C08", "C06"],
+    contract(f"{LT_}:LocationTable.{name}", props=["C08", "C06", "C01"],
              shapes={"self": LOCT, hdr_param: hdr_shape, "packet": T.bytes(0, 2000)},
              requires=LT_PRE + [f"gn_key_eq(K0(self), {hdr_param}.so_pv.gn_addr)"], inline=INL, frame_check=False,
              modifies=["self.loc_t"],
              raises={DUP: f"map_has(self.loc_t, K0(self)) and set_has(map_get(self.loc_t, K0(self)).dpl_set, {hdr_param}.sn)"},
              ensures={"neighbour_flag_untouched_by_multi_hop": f"implies(map_has(self.loc_t, {hdr_param}.so_pv.gn_addr), map_get(self.loc_t, {hdr_param}.so_pv.gn_addr).is_neighbour == (old(map_has(self.loc_t, K0(self))) and old(map_get(self.loc_t, K0(self)).is_neighbour)))",
+                      "new_source_entered_unless_expired": f"implies(not old(map_has(self.loc_t, K0(self))), map_has(self.loc_t, {hdr_param}.so_pv.gn_addr) == (sgn32((clock_tst_ms() - {hdr_param}.so_pv.tst.msec) % 2 ** 32) <= self.mib.itsGnLifetimeLocTE * 1000))",
+                      "first_position_vector": f"implies(not old(map_has(self.loc_t, K0(self))) and map_has(self.loc_t, {hdr_param}.so_pv.gn_addr), map_get(self.loc_t, {hdr_param}.so_pv.gn_addr).position_vector == {hdr_param}.so_pv)",
                       "sequence_number_recorded": f"implies(map_has(self.loc_t, {hdr_param}.so_pv.gn_addr), set_has(map_get(self.loc_t, {hdr_param}.so_pv.gn_addr).dpl_set, {hdr_param}.sn))",
                       "ring_invariant_kept": f"implies(map_has(self.loc_t, {hdr_param}.so_pv.gn_addr), dpl_wf(map_get(self.loc_t, {hdr_param}.so_pv.gn_addr)))",
                       "newest_position_vector": f"implies(map_has(self.loc_t, {hdr_param}.so_pv.gn_addr) and old(map_has(self.loc_t, K0(self))), map_get(self.loc_t, {hdr_param}.so_pv.gn_addr).position_vector == newest_pv(old(map_get(self.loc_t, K0(self)).position_vector), {hdr_param}.so_pv))"},
